@@ -838,7 +838,8 @@ for pkg, modules in jobs.items():
                     bad = [c for c in got if reg.get((c.__module__, c.__qualname__)) != frozenset(target)]
                     if bad or not got:
                         what = describe(bad[0], reg) if bad else f"no class of the package (`{ast.unparse([st for st in cls.body if isinstance(st, ast.AnnAssign) and ast.unparse(st.target) == field][0].annotation)}`)"
-                        reach.setdefault(m, []).append(f"{cls.name}.{field} reaches {what}, not the definition with members {sorted(target)}"[:400])
+                        reach.setdefault(m, []).append({"text": f"{cls.name}.{field} reaches {what}, not the definition with members {sorted(target)}"[:400],
+                                                        "reached": bad[0].__module__ if bad else None, "target": sorted(target)})
                 for owner, base in exp["bases"]:
                     if frozenset(owner) != own:
                         continue
@@ -850,7 +851,8 @@ for pkg, modules in jobs.items():
                             pass
                     if not any(reg.get((c.__module__, c.__qualname__)) == frozenset(base) for c in got):
                         what = describe(got[0], reg) if got else "no class of the package"
-                        reach.setdefault(m, []).append(f"base of {cls.name} is {what}, not the definition with members {sorted(base)}"[:400])
+                        reach.setdefault(m, []).append({"text": f"base of {cls.name} is {what}, not the definition with members {sorted(base)}"[:400],
+                                                        "reached": got[0].__module__ if got else None, "target": sorted(base)})
         except BaseException as e:
             res[m] = f"{type(e).__name__}: {e}"[:300]
     out[pkg] = {"modules": res, "reach": reach}
@@ -1193,6 +1195,28 @@ def correspondence(ck: Check, camp, case: dict, files: dict[str, str], pred: dic
 REACH_INHERITS = ("init_name_shadows_submodule", "init_body_copied")
 
 
+def copied_init_involved(case: dict, pred: dict | None, files: dict[str, str], importer: tuple, item: dict) -> bool:
+    """Trigger of the recorded finding C12-treatdot-init for a wrong class reached: under --treat-dot-as-module the
+    package file of the importer, of the module the reached class lives in, or of the module the referenced
+    definition belongs to carries a body that __postprocess_result_modules copied over it (file-map model:
+    the body differs from the one the same file has without the post-processing)."""
+    if pred is None or not case["opts"].get("treat_dot_as_module") or "fmap_plain" not in pred:
+        return False
+    mods = {importer}
+    if item.get("reached"):
+        mods.add(undot(item["reached"].split(".", 1)[1] if "." in item["reached"] else ""))
+    doc = build_doc(case["defs"], case["bases"], case.get("roots"))["definitions"]
+    for nm, sch in doc.items():
+        b = sch["allOf"][1] if "allOf" in sch else sch
+        if _schema_props(b) == item.get("target"):
+            mods.add(mod_of(nm))
+    for mod in mods:
+        r = "/".join((*mod, "__init__.py"))
+        if mod and r in pred["fmap"] and pred["fmap_plain"].get(r) != pred["fmap"][r]:
+            return True
+    return False
+
+
 def relative_key_collisions(case: dict) -> set[tuple]:
     """Trigger of the recorded finding C12-relkey-collision, stated on the input: importers m that refer to
     classes of BOTH m + s (a module below the package m) and m[:-1] + s (the like-named module beside m).
@@ -1252,14 +1276,17 @@ def flush_imports(ck: Check, camp, pending: list) -> None:
                     f"importing {m.split('.', 1)[-1] if '.' in m else '<root>'} in a fresh interpreter: {e}")
         # (5): the class reached is not the class of the referenced definition. It is a consequence of a recorded
         # defect only where that defect is about a name bound to another module's object.
-        for m, texts in sorted(r["reach"].items()):
+        for m, items in sorted(r["reach"].items()):
+            strip = lambda mod: undot(mod.split(".", 1)[1] if "." in mod else "")
             inherited = [x for x in mechs_of(m) if x in REACH_INHERITS]
-            if undot(m.split(".", 1)[1] if "." in m else "") in relative_key_collisions(case):
+            if strip(m) in relative_key_collisions(case):
                 inherited.append("relative_key_collision")
+            if copied_init_involved(case, pred, files, strip(m), items[0]):
+                inherited.append("init_body_copied")
             mech = inherited[0] if inherited else "wrong_class_reached"
             camp.hit(f"reach_failed:{mech}")
             ck.fail({"oracle": "use_reaches_target", "input_kind": kind, "mechanism": mech}, case,
-                    f"{m.split('.', 1)[-1] if '.' in m else '<root>'}: {texts[0]}")
+                    f"{m.split('.', 1)[-1] if '.' in m else '<root>'}: {items[0]['text']}")
     pending.clear()
 
 
